@@ -381,16 +381,16 @@ def gen_modular_image(rng, opts=None):
     return img, [frame]
 
 
-def gen_fast_lossless_image(rng):
+def gen_fast_lossless_image(rng, bits=None, styles=None):
     """single-leaf gradient trees with LZ77 runs of distance 1: the shape that switches the decoder
     to its RLE 'fast lossless' path (jxl-modular image.rs decode_fast_lossless)"""
     w, h = rng.choice([1, 2, 3, 7, 16, 33, 64]), rng.choice([1, 2, 5, 9, 20])
-    bits = rng.choice([8, 8, 10, 12, 16])
+    bits = bits or rng.choice([8, 8, 10, 12, 16])
     gray = rng.random() < 0.4
     ncol = 1 if gray else 3
     img = {"w": w, "h": h, "bits": bits, "gray": gray, "buf16": bits <= 12 and rng.random() < 0.7, "ecs": []}
     lo, hi = 0, (1 << bits) - 1
-    chans = [(w, h, gen_pixels(rng, w, h, lo, hi, rng.choice(["flat", "sparse", "stripes", "smooth", "noise"])))
+    chans = [(w, h, gen_pixels(rng, w, h, lo, hi, rng.choice(styles or ["flat", "sparse", "stripes", "smooth", "noise"])))
              for _ in range(ncol)]
     ncl = rng.randint(1, 3)
     if rng.random() < 0.5 or ncol == 1:
@@ -441,17 +441,17 @@ def relabel_clusters(t):
     return go(t)
 
 
-def gen_table_image(rng, kind=None):
+def gen_table_image(rng, kind=None, bits=None, styles=None):
     """images whose trees hit the table-compilation paths of the flattener"""
     kind = kind or rng.choice(["simple-table", "gradient-table", "mixed-table", "redundant",
                                "prevchan-table", "wide-span"])
     w, h = rng.choice([1, 2, 3, 5, 8, 9, 17, 24]), rng.choice([1, 2, 3, 4, 7, 12, 20])
-    bits = rng.choice([8, 8, 10, 12, 16])
+    bits = bits or rng.choice([8, 8, 10, 12, 16])
     lo, hi = 0, (1 << bits) - 1
     gray = kind != "prevchan-table" and rng.random() < 0.4
     ncol = 1 if gray else 3
     img = {"w": w, "h": h, "bits": bits, "gray": gray, "buf16": bits <= 12 and rng.random() < 0.7, "ecs": []}
-    chans = [(w, h, gen_pixels(rng, w, h, lo, hi)) for _ in range(ncol)]
+    chans = [(w, h, gen_pixels(rng, w, h, lo, hi, rng.choice(styles) if styles else None)) for _ in range(ncol)]
     nvals = rng.randint(3, 9)
     span = rng.choice([8, 64, 600, 1020, 1022, 1023, 1024, 3000]) if kind == "wide-span" else rng.choice([6, 40, 300])
     base = rng.randint(-span, hi // 2)
